@@ -9,16 +9,22 @@ RDIR := $(B)/repo-$(KEY)-$(FLAVOUR)
 
 CXX := g++
 CC := gcc
-ifeq ($(FLAVOUR),asan)
+ifneq (,$(findstring asan,$(FLAVOUR)))
 SAN := -fsanitize=address,undefined -fno-sanitize-recover=all -fno-omit-frame-pointer
 OPT := -O1 -g
 else
 SAN :=
 OPT := -O2 -g
 endif
+# asan-uchar: the repository code compiled the way ARM / AArch64 / Xtensa (ESP32) / PowerPC compilers do: plain char is unsigned
+ifneq (,$(findstring uchar,$(FLAVOUR)))
+ABI := -funsigned-char
+else
+ABI :=
+endif
 # the simulator itself is not instrumented (speed); the sanitizer runtime still intercepts its malloc/memcpy
 CXXFLAGS := -std=c++17 -O2 -g -fno-omit-frame-pointer -Wall -Wextra -Wno-unused-parameter -Wno-array-compare -Isim
-CFLAGS_CORE := -std=gnu11 $(OPT) $(SAN) -Wall -Wextra -Wno-unused-parameter -I$(VERIF_REPO)/lltdResponder
+CFLAGS_CORE := -std=gnu11 $(OPT) $(SAN) $(ABI) -Wall -Wextra -Wno-unused-parameter -I$(VERIF_REPO)/lltdResponder
 CLASSIFIER_LEN := $(shell grep -q 'size_t frame_len' $(VERIF_REPO)/lltdResponder/lltdAutomata.h || echo -DGLUE_CLASSIFIER_NO_LEN)
 CFLAGS_GLUE := $(CFLAGS_CORE) -Isim -I$(VERIF_REPO) $(CLASSIFIER_LEN)
 
